@@ -778,7 +778,11 @@ def gen_src(rnd, depth=0, math=False):
         elif r < 0.80:
             out.append(rnd.choice(['\\x', '\\x ', '\\textbf{' + gen_src(rnd, depth + 1, math) + '}', '\\emph{a,b=c}',
                                    '\\,', '\\;', '\\item[' + rnd.choice(['a,b', '{*}', '']) + ']',
-                                   '\\section*[o,p]{t,u}', '\\textbf{{[}}']))
+                                   '\\section*[o,p]{t,u}', '\\textbf{{[}}',
+                                   # an optional argument whose whole content is ONE group: in brackets (same
+                                   # delimiters as the argument: stays one child), in braces (unwrapped), with company
+                                   '\\item[[a,b]]', '\\section[[k=v,w=z]]{t}', '\\item[{a,b}]', '\\item[[a],b]', '\\item[ [a,b]]',
+                                   '\\section[{k=v},w=z]{t}', '\\item[[]]', '\\textbf{{a,b}}', '\\textbf{{a},b}']))
         elif r < 0.87:
             out.append('%' + rnd.choice(['', ',', 'a=b,c', ' ']) + '\n')
         elif r < 0.93 and depth < 2 and not math:
